@@ -86,7 +86,7 @@ type c45Plan struct {
 
 func genC45(seed int64, tier string, emit func(run.Case)) {
 	r := gen.New(seed)
-	n := tierN(tier, 200, 20000)
+	n := tierN(tier, 200, 6000)
 	for i := 0; i < n; i++ {
 		q := r.Sub(i)
 		p := c45Plan{Init: "err", Route: "close", Trace: i%4 != 3, Points: map[string]d2cli.VerifAction{}}
@@ -202,7 +202,7 @@ func c45DialRaw(server, kind string) (out c45Outcome) {
 func c45Dial(server string, idx int, cl c45Client) (out c45Outcome) {
 	switch cl.Kind {
 	case "ws":
-		c, status, err := c44Dial(context.Background(), server, idx)
+		c, status, err := c44Dial(context.Background(), server, idx, nil)
 		out = c45Outcome{ws: c, status: status, err: err, upgraded: err == nil}
 	case "bad-upgrade":
 		hc := &http.Client{Transport: &http.Transport{DisableKeepAlives: true}, Timeout: 30 * time.Second}
